@@ -103,6 +103,8 @@ func (e *Eng) obligations() {
 	e.readerLineTail()
 	e.modeFlag()
 	e.poolPutOnce()
+	e.copyModePassed()
+	e.doneReportsTerminator()
 
 	// ---- C16: who reads Message
 	e.messageReaders()
